@@ -191,6 +191,14 @@ DATA = {
     "hist": ["regular", "zero", "outflow", "counts"],
     "unbinned": ["regular"],
 }
+# role 'D': the model function of role 'A' fitted to the data of role 'B' (two fits on one plot that use ONE model function: the
+# same Python function handed to both fits, or one model function object shared by both)
+MODEL_ROLE = {"A": "A", "B": "B", "C": "C", "D": "A"}
+# how the fits of one plot come by their model function: None = every fit wraps its own Python function (different functions),
+# 'function' = the same Python function object is handed to every fit (each fit wraps it itself), 'object' = one
+# ModelFunctionBase-derived object is handed to every fit (the fits then also share its parameter formatters)
+SHARE_MODES = ("function", "object")
+UNC_SHARED = {"xy": ["y", "y+fixed", "poisson"], "indexed": ["y", "poisson"], "hist": ["y", "poisson"], "unbinned": ["none"]}
 ZERO_INDEX = {"A": 2, "B": 3}  # which point carries the zero (differs between the two fits of a plot)
 EMPTY_BIN = {"A": 0, "B": -1}  # which histogram bin is emptied
 OUTFLOW = {"A": (np.array([0.05, 0.12]), np.array([6.3, 6.9, 7.4])), "B": (np.array([0.1, 0.2, 0.3]), np.array([6.9, 7.5]))}  # (underflow, overflow): counts differ
@@ -237,7 +245,9 @@ def hist_counts(entries, edges):
 class World(object):
     """One real kafe2 fit + the plain numbers it was built from (the reference)."""
 
-    def __init__(self, ftype, unc, v, role, data="regular"):
+    def __init__(self, ftype, unc, v, role, data="regular", model=None):
+        """model: what is handed to the fit as its model function instead of the role's own Python function (the same Python
+        function or a model function object that other fits use as well); the reference keeps using the plain Python function"""
         import kafe2
 
         if data not in DATA[ftype]:
@@ -247,7 +257,8 @@ class World(object):
         val = V(v, n)
         cost, cost_object, self.poisson = COST_OF[unc]
         with_y = unc in ("y", "xy", "ga+y", "poisson+y", "y+fixed", "y+relm", "y+msh", "nllr+y", "gnll+y", "gnllr+y")
-        drole = "A" if role == "A" else "B"  # whose data: role 'C' is another model for the data of role 'B'
+        drole = "A" if role == "A" else "B"  # whose data: roles 'C' and 'D' are other models for the data of role 'B'
+        mrole = MODEL_ROLE[role]  # whose model function
 
         self.rm = 0.0  # size of a y uncertainty relative to the MODEL (its bar follows the fitted model values)
         if ftype == "unbinned":
@@ -275,8 +286,8 @@ class World(object):
                 else:
                     self.y = val.y if role == "A" else val.y_alt
                 self.y = self._with_zero(self.y)
-                self.fn, self.jac = {"A": (lin, lin_jac), "B": (expo, expo_jac), "C": (expo_c, expo_c_jac)}[role]
-                f = kafe2.XYFit([self.x, self.y], self.fn, cost_function=cost)
+                self.fn, self.jac = {"A": (lin, lin_jac), "B": (expo, expo_jac), "C": (expo_c, expo_c_jac)}[mrole]
+                f = kafe2.XYFit([self.x, self.y], self.fn if model is None else model, cost_function=cost)
                 self.yerr = np.zeros(n)
                 self.xerr = np.zeros(n)
                 if with_y:
@@ -302,8 +313,8 @@ class World(object):
                     f.add_error("y", val.rm, relative=True, reference="model")
                     self.rm = float(val.rm)
                 if unc == "y+fixed":
-                    name = "b" if role == "A" else "k"  # (never a parameter that role 'C' shares with role 'A')
-                    value = 0.55 if role == "A" else -0.21
+                    name = "b" if mrole == "A" else "k"  # (never a parameter that role 'C' shares with role 'A')
+                    value = {"A": 0.55, "D": 6.3}.get(role, -0.21)
                     f.fix_parameter(name, value)
                     self.fixed[name] = value
             elif ftype == "indexed":
@@ -312,8 +323,8 @@ class World(object):
                 else:
                     self.y = val.y if role == "A" else val.y_alt
                 self.y = self._with_zero(self.y)
-                self.fn = {"A": make_imodel, "B": make_jmodel, "C": make_jmodel_c}[role](n)
-                f = kafe2.IndexedFit(self.y, self.fn, cost_function=cost)
+                self.fn = {"A": make_imodel, "B": make_jmodel, "C": make_jmodel_c}[mrole](n)
+                f = kafe2.IndexedFit(self.y, self.fn if model is None else model, cost_function=cost)
                 self.yerr = np.zeros(n)
                 if with_y:
                     f.add_error(ey)
@@ -327,12 +338,12 @@ class World(object):
             elif ftype == "hist":
                 self.edges = EDGES_A if role == "A" else EDGES_B
                 self.entries = entries_for(drole, v, data)
-                self.fn, self.cdf = {"A": (gdens, gdens_cdf), "B": (hdens, hdens_cdf), "C": (hdens_c, hdens_c_cdf)}[role]
+                self.fn, self.cdf = {"A": (gdens, gdens_cdf), "B": (hdens, hdens_cdf), "C": (hdens_c, hdens_c_cdf)}[mrole]
                 if data == "counts":
-                    self.fn, self.cdf = {"A": (gcount, gcount_cdf), "B": (hcount, hcount_cdf)}[role]
+                    self.fn, self.cdf = {"A": (gcount, gcount_cdf), "B": (hcount, hcount_cdf)}[mrole]
                 nb = len(self.edges) - 1
                 c = kafe2.HistContainer(n_bins=nb, bin_range=(self.edges[0], self.edges[-1]), bin_edges=list(self.edges), fill_data=list(self.entries))
-                f = kafe2.HistFit(c, self.fn, cost_function=cost, bin_evaluation=self.cdf, **(dict(density=False) if data == "counts" else {}))
+                f = kafe2.HistFit(c, self.fn if model is None else model, cost_function=cost, bin_evaluation=self.cdf, **(dict(density=False) if data == "counts" else {}))
                 self.y = hist_counts(self.entries, self.edges)
                 # the number the model is scaled to: ALL entries of the container, inside the bin range or not
                 self.n_entries = float(len(self.entries))
@@ -353,8 +364,8 @@ class World(object):
                         self.yerr = np.sqrt(e**2 + e2**2)
             elif ftype == "unbinned":
                 self.entries = entries_for(drole, v)
-                self.fn = {"A": gdens, "B": hdens, "C": hdens_c}[role]
-                f = kafe2.UnbinnedFit(self.entries, self.fn)
+                self.fn = {"A": gdens, "B": hdens, "C": hdens_c}[mrole]
+                f = kafe2.UnbinnedFit(self.entries, self.fn if model is None else model)
                 self.y = None
                 self.x = np.sort(self.entries)
                 self.yerr = None
@@ -400,6 +411,26 @@ class World(object):
     def has_ybar(self):
         b = self.ybar()
         return b is not None and bool(np.any(b != 0))
+
+
+def build_worlds(ftype, unc, v, roles, data="regular", share=None):
+    """the worlds of the fits of one plot; share: None / 'function' / 'object' (see UNC_SHARED)"""
+    if not share:
+        return [World(ftype, unc, v, r, data) for r in roles]
+    if len({MODEL_ROLE[r] for r in roles}) != 1:
+        raise ValueError("fits that share a model function need roles with the same model: %r" % (roles,))
+    fn = World(ftype, unc, v, roles[0], data).fn
+    if share == "function":
+        model = fn
+    elif share == "object":
+        import kafe2
+        from kafe2.fit.histogram import HistModelFunction
+        from kafe2.fit.indexed import IndexedModelFunction
+
+        model = {"xy": kafe2.ModelFunctionBase, "unbinned": kafe2.ModelFunctionBase, "indexed": IndexedModelFunction, "hist": HistModelFunction}[ftype](fn)
+    else:
+        raise ValueError(share)
+    return [World(ftype, unc, v, r, data, model=model) for r in roles]
 
 
 def make_multi(worlds, unc):
@@ -489,10 +520,12 @@ class Shown(object):
     def __init__(self, text):
         self.text = text
         t = text.strip()
-        m = re.fullmatch(r"(-?\d*\.?\d*)(?:\\times10\^\{(-?\d*)\})?", t)
+        # mantissa, optionally with a power of ten in LaTeX ('\times10^{-6}') or in Python's notation ('-2.e-06': what a value
+        # much smaller than its uncertainty is displayed as)
+        m = re.fullmatch(r"(-?\d*\.?\d*)(?:\\times10\^\{(-?\d*)\}|[eE]\+?(-?\d+))?", t)
         if not m or m.group(1) in ("", "-", ".", "-."):
             raise ValueError("not a displayed number: %r" % text)
-        mant, ex = m.group(1), m.group(2)
+        mant, ex = m.group(1), (m.group(2) if m.group(3) is None else m.group(3))
         d = decimal.Decimal(mant)
         e = int(ex) if ex not in (None, "", "-") else 0
         self.value = d.scaleb(e)
